@@ -338,3 +338,91 @@ def nonreentrant(run, units=('mir', 'gen', 'c2mir')):
             for n in bad:
                 run.violation(rule, f, 'call %s' % n['n'], 'libc function %s keeps process-wide state; contexts on '
                                                           'different threads would interfere' % n['n'], line=n['l'])
+
+
+# ---------------------------------------------------------------------------------------------
+# RF5s: the shared error sentinel is compared and returned, never linked into a tree
+# ---------------------------------------------------------------------------------------------
+
+def rf5s(run):
+    from lib import facts as F
+    rule = 'RF5s'
+    run.rule(rule, 'c2mir: err_node points to one static node shared by all contexts; it is an identity sentinel.  A local variable that '
+                   'may hold it (assigned `err_node`, or the result of a function of the unit that returns `err_node`) is not passed '
+                   'to a function (op_append, new_node…) on any path on which it has not been tested against err_node or assigned again: a '
+                   'linked sentinel becomes memory that every context reads and writes')
+    tu = run.tu('c2mir')
+    # functions that can return the sentinel
+    ret_err = set()
+    for g in tu.func_list:
+        for x in g.walk():
+            if x['k'] == 'ReturnStmt' and x.get('c') and x['c'][0] is not None and F.src(F.strip(x['c'][0])) == 'err_node':
+                ret_err.add(g.name)
+    n = 0
+    for f in tu.func_list:
+        if f.cfg_raw is None or not f.file.startswith('/repo'):
+            continue
+        starts = []
+        for x in f.walk():
+            if x['k'] == 'BinaryOperator' and x['op'] == '=' and F.strip(x['c'][0])['k'] == 'DeclRefExpr' and F.strip(x['c'][0]).get('dk') == 'local':
+                r = F.strip(x['c'][1])
+                if F.src(r) == 'err_node':
+                    starts.append((x, F.strip(x['c'][0])['n']))
+        if not starts:
+            continue
+        cfg = f.cfg
+        for sx, v in starts:
+            sb = cfg.block_of(sx)
+            if sb is None:
+                continue
+            bad = None
+            seen = set()
+            work = [(sb, True)]   # (block, start inside the block after the assignment)
+            while work and bad is None:
+                b, from_assign = work.pop()
+                if (b, from_assign) in seen:
+                    continue
+                seen.add((b, from_assign))
+                B = cfg.blocks[b]
+                active = not from_assign
+                killed = False
+                for e in cfg.top_elems(B):
+                    if from_assign and not active:
+                        if any(y is sx for y in F.walk(e)):
+                            active = True
+                        continue
+                    for y in cfg.local_walk(e):
+                        if y['k'] == 'CallExpr' and not (y.get('callee') or '').startswith(('VARR_', 'HTAB_')):
+                            for a_ in F.call_args(y):
+                                a0 = F.strip(a_)
+                                if a0['k'] == 'DeclRefExpr' and a0['n'] == v:
+                                    bad = y
+                        if bad is not None:
+                            break
+                        if y['k'] == 'BinaryOperator' and y['op'] == '=' and F.strip(y['c'][0])['k'] == 'DeclRefExpr' and F.strip(y['c'][0])['n'] == v and y is not sx:
+                            killed = True
+                    if bad is not None or killed:
+                        break
+                if bad is not None or killed:
+                    continue
+                if B.cond is not None and len(B.succs) == 2:
+                    ct = F.src(F.strip(B.cond)).replace(' ', '').strip('()')
+                    if ct == '%s==err_node' % v:
+                        if B.succs[0] is not None:
+                            work.append((B.succs[0], False))
+                        continue
+                    if ct == '%s!=err_node' % v:
+                        if B.succs[1] is not None:
+                            work.append((B.succs[1], False))
+                        continue
+                for s_ in cfg.live_succs(b):
+                    work.append((s_, False))
+            n += 1
+            run.functions_analysed.add(('c2mir', f.name))
+            run.ob(rule, (f.name, sx['l']), bad is None, {'site': '%s:%d %s' % (f.relfile(), sx['l'], f.name), 'variable': v} if n % 10 == 1 or bad is not None else None)
+            if bad is not None:
+                run.violation(rule, f, 'sentinel handed to %s' % (bad.get('callee') or 'a function'), '`%s` receives the sentinel err_node at line %d and is passed to '
+                              '`%s` at line %d without having been tested against err_node: the static node becomes part of a syntax tree, and two '
+                              'contexts parsing in different threads read and write the trees of each other through it' % (v, sx['l'], F.src(bad)[:60], bad['l']),
+                              line=bad['l'])
+    return n
